@@ -43,7 +43,7 @@ def bounds(tier, prop):
                 "lock subsets": "all with >= 1 idle ensemble and a perfect matching on the idle block",
                 "reach patterns": "all (k-1)^(k-1) assignments of staircase rows to slots",
                 "outside": "k > 6; hole patterns; random_prob"}
-    return {"ensembles k": "2..4 fully symbolic; 5 with <= 2 fully symbolic rows (others row-constant); 5..7 row-constant",
+    return {"ensembles k": "2..4 fully symbolic; 5 with <= 2 fully symbolic rows (others row-constant); 5..6 row-constant; 5..6 unit; 7 unit with non-decreasing reach vectors only",
             "lock subsets": "all with >= 1 idle ensemble and a perfect matching on the idle block",
             "reach patterns": "all assignments of staircase rows to slots",
             "outside": "k > 7; hole patterns; random_prob"}
@@ -61,9 +61,10 @@ def _hall_ok(k, pat, locks):
     return any(all(sub[i][p[i]] for i in range(n)) for p in itertools.permutations(range(n)))
 
 
-def _enum(k, mode, nsym=None):
+def _enum(k, mode, nsym=None, sorted_only=False):
     out = []
-    for pat in itertools.product(range(1, k), repeat=k - 1):
+    pats = itertools.combinations_with_replacement(range(1, k), k - 1) if sorted_only else itertools.product(range(1, k), repeat=k - 1)
+    for pat in pats:
         for locks in itertools.product([0, 1], repeat=k):
             if all(locks):
                 continue
@@ -88,7 +89,7 @@ def instances(tier, prop):
         out += _enum(k, "rowconst") if tier == "thorough" or k == 5 else []
     if tier == "thorough":
         out += _enum(5, "mixed", nsym=2)
-        out += _enum(7, "unit")
+        out += _enum(7, "unit", sorted_only=True)
     else:
         out += _enum(5, "unit") + _enum(6, "unit")
     # (f): the three code paths agree on row-constant staircase blocks
